@@ -114,7 +114,7 @@ _RECT_SC = ['0200', '2000'] + ['%d%d%s' % (_a, _b, _c) for _a in (1, 2) for _b i
 K('C04.a2.sym', property='C04', engine='symex', harness='C04/covmat.cpp', entries=['k_sym_m%d_%s' % (_m, _s) for _m in (0, 1, 4) for _s in _SYM_SC], tus=_CM_TUS,
   bounds={'quick': '0..2 active variables, 0..2 valid samples per variable independently (heterotopy), one more sample per unset flag; 2 basic structures; mode null, all-active, or all-active and unitary; '
                    'measurement-error column present / absent per variable, arbitrary integer variances in [-50,50]; one entry per (mode kind, number of variables, numbers of samples)'},
-  timeout_ms={'quick': 60000, 'thorough': 600000}, validate={'quick': 4, 'thorough': 20}, validate_doubles='int',
+  timeout_ms={'quick': 60000, 'thorough': 600000}, validate={'quick': 2, 'thorough': 10}, validate_doubles='int',
   what='ACovAnisoList::evalCovMatrixSymmetricOptim (+ CovAniso::evalOptimInPlace, ACovAnisoList::optimizationSetTargetByIndex) against ACov::evalCovMatrixSymmetric (+ ACovAnisoList::eval, '
        'CovAniso::eval, getSill), both followed by ACov::_updateCovMatrixSymmetricVerr, on the same inputs: same request Db::getMultipleRanksActive(ivars, nbgh, useSel, useVerr), same shape, '
        'same cells: the variance of measurement error lands on the same diagonal cells',
